@@ -790,4 +790,98 @@ theorem coherent_setvg (s : St) (lv : List Rat) (h : Coherent s) (hl : lv.length
   obtain ⟨h1, h2, h3, h4, h5, h6, _⟩ := h
   exact ⟨h1, h2, h3, h4, h5, h6, hl⟩
 
+theorem mem_vars_putVar (o : St) (v w : DVar) (h : w ∈ (putVar o v).vars) : w ∈ o.vars ∨ w = v := by
+  simp only [putVar, vars_add2Varlist, List.mem_append, List.mem_filter, List.mem_singleton] at h
+  rcases h with h | h
+  · exact Or.inl h.1
+  · exact Or.inr h
+
+theorem mem_vars_putAll : ∀ (vs : List DVar) (o : St) (w : DVar), w ∈ (putAll o vs).vars → w ∈ o.vars ∨ w ∈ vs
+  | [], o, w, h => Or.inl h
+  | v :: vs, o, w, h => by
+    have : putAll o (v :: vs) = putAll (putVar o v) vs := rfl
+    rw [this] at h
+    rcases mem_vars_putAll vs (putVar o v) w h with h1 | h1
+    · rcases mem_vars_putVar o v w h1 with h2 | h2
+      · exact Or.inl h2
+      · exact Or.inr (by rw [h2]; simp)
+    · exact Or.inr (by simp [h1])
+
+/-- after the point extraction a dimension tuple is never a standard one (unless it was the boundary tuple before) -/
+theorem pointsDims_not_std (d : List String) (hb : d ≠ stdB) : (pointsDims d == stdG || pointsDims d == stdB) = false := by
+  unfold pointsDims
+  by_cases hg : (d == stdG) = true
+  · rw [if_pos hg]
+    decide
+  · simp only [hg, Bool.false_eq_true, if_false, Bool.or_eq_false_iff]
+    constructor
+    · apply beq_false_of_ne
+      intro he
+      have hrow : "ROW" ∈ stdG := by simp [stdG]
+      rw [← he] at hrow
+      simp only [List.mem_append, List.mem_filter] at hrow
+      rcases hrow with h1 | h1
+      · simp at h1
+      · split at h1 <;> simp at h1
+    · apply beq_false_of_ne
+      intro he
+      have hnp : "POINTS" ∉ stdB := by simp [stdB]
+      by_cases hc : (d.contains "ROW" || d.contains "COL") = true
+      · rw [if_pos hc] at he
+        apply hnp
+        rw [← he]
+        simp
+      · rw [if_neg hc, List.append_nil] at he
+        have hfl : d.filter (fun k => k != "ROW" && k != "COL") = d := by
+          apply List.filter_eq_self.mpr
+          intro k hk
+          simp only [Bool.or_eq_true, List.contains_eq_mem, decide_eq_true_eq, not_or] at hc
+          simp only [Bool.and_eq_true, bne_iff_ne, ne_eq]
+          exact ⟨fun e => hc.1 (e ▸ hk), fun e => hc.2 (e ▸ hk)⟩
+        rw [hfl] at he
+        exact hb he
+
+theorem vars_pointsPre (s : St) (w : DVar) (h : w ∈ (pointsPre s).vars) : ∃ v ∈ s.vars, w = pointsVar v := by
+  unfold pointsPre copyVarsInto at h
+  have h' : w ∈ (putAll { shell s with grid := false, nR := 0, nC := 0 } (s.vars.map pointsVar)).vars := by
+    split at h
+    · simpa using h
+    · exact h
+  rcases mem_vars_putAll _ _ w h' with h0 | h1
+  · simp [shell] at h0
+  · simp only [List.mem_map] at h1
+    obtain ⟨v, hv, rfl⟩ := h1
+    exact ⟨v, hv, rfl⟩
+
+/-- **the point extraction leaves no listed variable**: every variable that had ROW / COL is carried by POINTS afterwards,
+so (unless a gridded file holds a variable on the boundary dimensions) none has standard dimensions and `updatemeta()`
+lists none — the state of the recorded finding `zero-listed-variables` -/
+theorem points_unlists (s s' : St) (h : opPoints s = some s') (hb : ∀ v ∈ s.vars, v.dims ≠ stdB) :
+    s'.varlist = [] := by
+  unfold opPoints at h
+  split at h
+  · cases h
+  · simp only [Option.some.injEq] at h
+    subst h
+    have hlist : ∀ k, listable (pointsPre s) k = false := by
+      intro k
+      unfold listable
+      simp only [Bool.and_eq_false_iff]
+      left
+      rw [List.any_eq_false]
+      intro w hw
+      obtain ⟨v, hv, rfl⟩ := vars_pointsPre s w hw
+      have := pointsDims_not_std v.dims (hb v hv)
+      simp [isStd, pointsVar, this]
+    rw [varlist_updatemeta]
+    unfold getVarlist
+    simp only
+    apply List.filter_eq_nil_iff.mpr
+    intro k _
+    simp [hlist k]
+
+/-- non-vacuity: the example file -/
+example : ∃ s', opPoints exSt = some s' ∧ s'.varlist = [] ∧ s'.nvars = 0 ∧ s'.varDim = 1 := by
+  refine ⟨_, rfl, ?_, ?_, ?_⟩ <;> decide +kernel
+
 end Props.C10
